@@ -84,7 +84,9 @@ def main(argv=None):
             r1 = mod.replay(case)
             _bfs.globals_state().restore(())
             r2 = mod.replay(case)
-            if r1 != r2:
+            same = common.scrub(json.dumps(common.enc(r1), default=str)) == common.scrub(
+                json.dumps(common.enc(r2), default=str))
+            if not same:
                 raise MachineryError(
                     f"explorer nondeterminism: two replays of one case differ: "
                     f"{common.short(r1)} vs {common.short(r2)} case={common.short(case)}"
